@@ -109,6 +109,18 @@ func webHandler(c *Ctx, a *flAgg, fn *ssa.Function) {
 			// success path: header, then the page, after a successful snapshot; nothing after an error
 			if strings.HasSuffix(seq, "page") && strings.Contains(seq, "snapshot") && !strings.Contains(seq, "error") {
 				a.ok("WEB-status", "SnapshotHandler/success", "the page is written only on the path without any error reply", pos)
+				// ... and declared as HTML before the first byte is written
+				ctype := false
+				for _, ev := range p.Events {
+					if ev.Kind == EvCall && strings.Contains(ev.Val.String(), `"Content-Type"`) && strings.Contains(ev.Val.String(), "text/html") {
+						ctype = true
+					}
+					if ev.Kind == EvCall && ev.Val.Op == OpCall && ev.Val.Fn != nil && ev.Val.Fn.Name() == "ToHTML" && !ctype {
+						a.bad("WEB-status", "SnapshotHandler/content-type", "the page is written without the Content-Type text/html having been set: the client is left to sniff what it received", ev.Pos)
+					} else if ev.Kind == EvCall && ev.Val.Op == OpCall && ev.Val.Fn != nil && ev.Val.Fn.Name() == "ToHTML" {
+						a.ok("WEB-status", "SnapshotHandler/content-type", "the page is declared text/html before it is written", ev.Pos)
+					}
+				}
 			} else {
 				a.bad("WEB-status", "SnapshotHandler/success", "a GET path without error reply does not end by writing the page ("+seq+")", pos)
 			}
@@ -288,6 +300,61 @@ func webValidation(c *Ctx, a *flAgg, fn *ssa.Function, x *SPE) {
 			}
 		}
 	}
+	// augment=0 switches source analysis off for this request, augment=1 leaves it on
+	augBad, augSeen := "", 0
+	for _, p := range x.Paths {
+		if len(callEvents(p, isPage)) == 0 {
+			continue
+		}
+		provided, zero, haveZero := false, false, false
+		for _, lt := range p.Lits {
+			at := lt.Atom
+			if at.Op != OpBin || len(at.Args) != 2 {
+				continue
+			}
+			if at.Tok == token.EQL && strings.Contains(at.Args[0].String(), "FormValue(") && strings.HasSuffix(at.Args[0].String(), `"augment")`) {
+				if sv, ok := constStr(at.Args[1]); ok && sv == "" {
+					provided = !lt.Pol
+				}
+			}
+			if at.Tok == token.EQL && strings.Contains(at.Args[0].String(), "strconv.Atoi(") && strings.Contains(at.Args[0].String(), `"augment"`) && strings.HasSuffix(at.Args[0].String(), "#0") {
+				if z, ok := at.Args[1].intConst(); ok && z == 0 {
+					zero, haveZero = lt.Pol, true
+				}
+			}
+		}
+		off := false
+		for _, ev := range p.Events {
+			if ev.Kind == EvStore && strings.HasSuffix(ev.Addr.String(), ".AnalyzeSources") {
+				if v, isC := ev.Val.boolConst(); isC && !v {
+					off = true
+				} else if !isC {
+					// computed value (e.g. augment == 1): accepted when it is the comparison itself
+					off = zero
+				}
+			}
+		}
+		switch {
+		case !provided:
+			if off {
+				augBad = "source analysis is switched off although no augment parameter was given"
+			}
+		case !haveZero:
+			// the value is only range-checked on this path: nothing to compare with
+		case zero != off:
+			augBad = fmt.Sprintf("augment==0 is %v on a path where source analysis is switched off=%v", zero, off)
+		default:
+			augSeen++
+		}
+	}
+	switch {
+	case augBad != "":
+		a.bad("WEB-validate", "SnapshotHandler/augment-meaning", augBad+": the parameter does not select what the documentation says", fn.Pos())
+	case augSeen > 0:
+		a.ok("WEB-validate", "SnapshotHandler/augment-meaning", "augment=0 switches source analysis off for the request, augment=1 leaves the default", fn.Pos())
+	default:
+		a.und("WEB-validate", "SnapshotHandler/augment-meaning", "no page-producing path distinguishes augment=0", fn.Pos())
+	}
 	switch {
 	case levelBad != "":
 		a.bad("WEB-validate", "SnapshotHandler/similarity-level", levelBad+": the page groups goroutines at another level than the request asked for", fn.Pos())
@@ -390,6 +457,13 @@ func webSnapshot(c *Ctx, a *flAgg, fn *ssa.Function) {
 			}
 			n := stacks[0].Val
 			buf := n.Args[1]
+			if len(n.Args) >= 3 {
+				if all, isC := n.Args[2].boolConst(); isC && all {
+					a.ok("WEB-grow", "snapshot/all-goroutines", "the capture asks the runtime for the stacks of all goroutines", pos)
+				} else {
+					a.bad("WEB-grow", "snapshot/all-goroutines", "runtime.Stack is not called with all=true: the page shows the handler's own goroutine only", pos)
+				}
+			}
 			fits, haveFits := lss(p, n, lenOf(buf))
 			// the limit: the right-hand side of a comparison len(buf) < M on this path
 			var maxmem *Expr
@@ -759,7 +833,34 @@ func webDoc(c *Ctx, a *flAgg, handler, snap *ssa.Function) {
 	}
 	if haveMin && snap != nil {
 		exprHome = snap.Pkg.Pkg
-		x := &SPE{Fn: snap, MaxVisits: 1}
+		// the limit in effect: what the buffer size is compared with inside the loop
+		var limits []ssa.Value
+		for _, l := range naturalLoops(snap) {
+			for b := range l.Body {
+				for _, in := range b.Instrs {
+					bo, ok := in.(*ssa.BinOp)
+					if !ok {
+						continue
+					}
+					switch bo.Op {
+					case token.LSS, token.LEQ, token.GTR, token.GEQ:
+					default:
+						continue
+					}
+					for _, pr := range [][2]ssa.Value{{bo.X, bo.Y}, {bo.Y, bo.X}} {
+						if lc, ok := pr[0].(*ssa.Call); ok && bnCallee(lc) == "builtin.len" {
+							if oc, ok := pr[1].(*ssa.Call); ok && bnCallee(oc) == "runtime.Stack" {
+								continue
+							}
+							if _, isC := pr[1].(*ssa.Const); !isC {
+								limits = append(limits, pr[1])
+							}
+						}
+					}
+				}
+			}
+		}
+		x := &SPE{Fn: snap, MaxVisits: 1, Watch: limits}
 		x.StopAt = func(in ssa.Instruction) bool {
 			call, ok := in.(*ssa.Call)
 			if !ok {
@@ -770,6 +871,7 @@ func webDoc(c *Ctx, a *flAgg, handler, snap *ssa.Function) {
 		}
 		x.Explore()
 		first, clamp := int64(-1), false
+		kept, wrong := false, false
 		for _, p := range x.Paths {
 			if p.Term != "stopat" || len(p.Results) < 2 {
 				continue
@@ -790,7 +892,27 @@ func webDoc(c *Ctx, a *flAgg, handler, snap *ssa.Function) {
 				at := lt.Atom
 				if at.Op == OpBin && at.Tok == token.LSS && at.Args[0].Op == OpParam {
 					if k, isC := at.Args[1].intConst(); isC && k == first {
-						clamp = true
+						// below the floor: raised to it; otherwise: left alone
+						var cur *Expr
+						for _, wv := range limits {
+							if e := p.Watched[wv]; e != nil {
+								cur = e
+							}
+						}
+						if cur == nil {
+							cur = p.StopPhis[at.Args[0].Name]
+						}
+						if cur == nil {
+							continue
+						}
+						cv, curConst := cur.intConst()
+						if lt.Pol && curConst && cv == first {
+							clamp = true
+						} else if !lt.Pol && cur.Op == OpParam && cur.Name == at.Args[0].Name {
+							kept = true
+						} else {
+							wrong = true
+						}
 					}
 				}
 			}
@@ -798,7 +920,7 @@ func webDoc(c *Ctx, a *flAgg, handler, snap *ssa.Function) {
 		switch {
 		case first < 0:
 			a.und(rule, "snapshot/minimum-maxmem", "the size of the first capture buffer is not a constant", snap.Pos())
-		case first == docMin && clamp:
+		case first == docMin && clamp && kept && !wrong:
 			a.ok(rule, "snapshot/minimum-maxmem", fmt.Sprintf("a maxmem below the documented minimum %d is raised to it (the size of the first capture buffer)", docMin), snap.Pos())
 		default:
 			a.bad(rule, "snapshot/minimum-maxmem", fmt.Sprintf("the documentation promises a minimum maxmem of %d; the first capture buffer is %d bytes (raised to it: %v): a small valid maxmem gives a truncated dump of any process whose dump exceeds that", docMin, first, clamp), snap.Pos())
